@@ -34,6 +34,8 @@ func propC16() Property {
 			{ID: "C16-R10", Desc: "file store: messages are appended at the end and indexed where they were written (= C17-R2)", Min: 3, Run: c17R2},
 			{ID: "C16-R11", Desc: "file-name prefix: each optional part under its own emptiness test", Min: 3, Run: c16R11},
 			{ID: "C16-R12", Desc: "sql: cache updated only after Commit returned nil (= C17-R4)", Min: 4, Run: c17R4},
+			{ID: "C16-R18", Desc: "file store: the index scan is left only behind the requested range (= C17-R9)", Min: 1, Run: c17R9},
+			{ID: "C16-R17", Desc: "range readers size nothing from an unordered range", Min: 1, Run: c16R17},
 			{ID: "C16-R16", Desc: "database stores reset the cached counters only after the messages were deleted", Min: 2, Run: c16R16},
 			{ID: "C16-R15", Desc: "file store: each message is read at the offset its index line records (= C17-R8)", Min: 1, Run: c17R8},
 			{ID: "C16-R14", Desc: "sql store: identity parts are bound to their own columns in every statement", Min: 40, Run: c16R14},
